@@ -54,6 +54,53 @@ def aligned_index(s):
     return (h * 60 + m) // 30 if m % 30 == 0 else None
 
 
+def spellings_of(t):
+    """the spellings of a zero-padded HH:MM that "%H:%M" accepts: each number with or without its leading zero"""
+    h, m = t.split(":")
+    return sorted({f"{a}:{b}" for a in (h, str(int(h))) for b in (m, str(int(m)))})
+
+
+def aligned_slot(parsed):
+    """slot index of a parsed 'H:M' (value-aligned to the half hour), else None"""
+    if parsed == "x":
+        return None
+    h, m = map(int, parsed.split(":"))
+    return (h * 60 + m) // 30 if m % 30 == 0 else None
+
+
+def check_time_parse(res, tier):
+    """the `%H:%M` specification (Model/TimeParse.lean `parseTime`) against datetime.strptime: EXHAUSTIVELY over all digit
+    strings of the shapes d:d, d:dd, dd:d, dd:dd, plus the malformed and oddly written times of this harness"""
+    import itertools
+    strs = []
+    for nh in (1, 2):
+        for nm in (1, 2):
+            for hd in itertools.product("0123456789", repeat=nh):
+                for md in itertools.product("0123456789", repeat=nm):
+                    strs.append("".join(hd) + ":" + "".join(md))
+    strs += BAD_TIMES + ODD_TIMES + ["7:５", "1２:00", "٣:00", "12:3٠", "é", "12:00\x00", "+1:00", "1_0:00", "1:+5", " 1:5", "1 :5", "1: 5",
+                                     "001:00", "1:005", "12:5 ", "2:", ":2", "::", "1:2:3", "１２:００"]
+    answers = driver_batch("s.parse " + (hexs(t.encode()) or "-") for t in strs)
+    n = 0
+    for t, ans in zip(strs, answers):
+        res.case(("time-parse", t))
+        if not t:
+            continue
+        want = parse_time(t)
+        if ans == "declined":
+            res.count("time-parse: declined (non-ASCII character)")
+            if t.isascii():
+                res.fail("corr", dict(part="time-parse", time=t), "an answer", "declined", "the %H:%M specification declines an ASCII string")
+            continue
+        n += 1
+        res.count("time-parse:" + ("x" if want == "x" else "ok"))
+        if ans != want:
+            res.fail("corr", dict(part="time-parse", time=t), dict(model=ans), dict(strptime=want),
+                     "Model/TimeParse.lean parseTime and datetime.strptime(s, '%H:%M') differ")
+    res.notes.append(f"time-parse: {n} strings (all digit strings d:d, d:dd, dd:d, dd:dd + malformed / odd ones) through the %H:%M "
+                     "specification and through datetime.strptime")
+
+
 def state_token(st):
     return hexs(st.encode()) if isinstance(st, str) else hexs(b"<not-a-str>")
 
@@ -147,6 +194,24 @@ def gen_set_cases(rng, tier):
                 j = rng.randrange(48)
                 yield dict(cls="aligned-spelling", pattern=bits(p), state=rng.choice(STATES), start=a, end=rng.choice(spellings(j)), how="set_state")
                 yield dict(cls="aligned-spelling", pattern=bits(p), state=rng.choice(STATES), start=rng.choice(spellings(j)), end=a, how="set_state")
+    # every aligned time in every spelling "%H:%M" accepts (each number with or without its leading zero), as start and
+    # as end — midnight as the END in all four spellings in particular ("00:00", "0:00", "00:0", "0:0")
+    for p in pats[:2]:
+        for i, t in enumerate(TIMES):
+            for sp in spellings_of(t):
+                if sp == t:
+                    continue
+                for st in ("day", "off"):
+                    j = rng.randrange(48)
+                    yield dict(cls="spelled", pattern=bits(p), state=st, start=sp, end=rng.choice(spellings_of(TIMES[j])), how="set_state")
+                    yield dict(cls="spelled", pattern=bits(p), state=st, start=TIMES[rng.randrange(48)], end=sp, how="set_state")
+                    how = rng.choice(["set_state", "set_on", "set_off"])
+                    yield dict(cls="spelled", pattern=bits(p), state={"set_on": "on", "set_off": "off"}.get(how, st), start=sp,
+                               end=rng.choice(spellings_of("00:00")), how=how)
+    for e in spellings_of("00:00"):
+        for i in range(0, 48, 5):
+            for st in STATES:
+                yield dict(cls="spelled", pattern=bits(pats[0]), state=st, start=rng.choice(spellings_of(TIMES[i])), end=e, how="set_state")
     # hand-made days of other lengths (outside the statement; the model says IndexError + partial edit)
     for n in list(range(0, 48)) + [49, 50, 56, 96]:
         for _ in range(4 if quick else 40):
@@ -1253,6 +1318,7 @@ def run(ctx):
         [gen_heap_history(rng, i) for i in range(400 if ctx["tier"] == "quick" else 10000)]
     from common import Parts
     parts = Parts(res)
+    parts.run("time strings", check_time_parse, res, ctx["tier"])
     parts.run("set_state", run_set_cases, set_cases, res)
     if not ctx.get("max_cases"):
         parts.run("set_state minute sweep", run_minute_sweep, ctx["tier"], res)
